@@ -390,7 +390,9 @@ impl Scrut {
             }
         }
         if self.terminated {
-            push("`".repeat(self.fence), Part::ScrutClose);
+            // "close-long": a closing fence may be longer than the opening one
+            let n = if self.ws == "close-long" { self.fence + 1 } else { self.fence };
+            push("`".repeat(n), Part::ScrutClose);
         }
     }
 }
@@ -524,6 +526,7 @@ impl Block {
                 match s.ws.as_str() {
                     "trail" => add("ws-trail", &mut any),
                     "lead" => add("ws-lead", &mut any),
+                    "close-long" => add("close-long", &mut any),
                     "cfg-trail" if s.cfg_text.is_some() => add("cfg-ws-trail", &mut any),
                     _ => {}
                 }
@@ -1125,6 +1128,7 @@ impl MdGen<'_> {
             0 => s.ws = "trail".into(),
             1 => s.ws = "lead".into(),
             2 => s.ws = "cfg-trail".into(),
+            3 => s.ws = "close-long".into(),
             _ => {}
         }
         if s.cfg_text.is_some() && s.ws == "trail" {
